@@ -26,8 +26,7 @@ impl<'a> Read for ChunkReader<'a> {
         let mut n = buf.len();
         if n > avail { n = avail; }
         if n > self.chunk { n = self.chunk; }
-        let mut i = 0;
-        while i < n { buf[i] = self.data[self.pos + i]; i += 1; }
+        buf[..n].copy_from_slice(&self.data[self.pos..self.pos + n]);
         self.pos += n;
         Ok(n)
     }
@@ -56,8 +55,7 @@ impl Write for FaultWriter {
         let mut n = data.len();
         if n > self.chunk { n = self.chunk; }
         if n > self.fail_at - self.buf.len() { n = self.fail_at - self.buf.len(); }
-        let mut i = 0;
-        while i < n { self.buf.push(data[i]); i += 1; }
+        self.buf.extend_from_slice(&data[..n]);
         Ok(n)
     }
     fn flush(&mut self) -> io::Result<()> {
